@@ -212,14 +212,51 @@ def reroute(g, key):
             v = e.get_edge_type()
             return v.value if hasattr(v, 'value') else str(v)
         return x.get_node_names(), sorted((e.source.identifier, e.destination.identifier, t(e)) for e in x.get_edges())
+    route = 'json' if h % 5 == 0 else 'copy'
     try:
-        h2 = type(g).from_dict(json.loads(json.dumps(g.to_dict()))) if h % 5 == 0 else g.copy()
+        if h % 5 == 0 and h // 5 % 3 == 1:
+            # through an adjacency matrix of an unsigned dtype, names in reversed order (fully directed graphs only; attributes
+            # are lost on this route, which the structural lanes using it do not read)
+            import numpy
+            es = shape(g)[1]
+            bare = not g.meta and all(not e.meta for e in g.get_edges()) and all(
+                n.variable_type.value == 'unspecified' and not [k for k in n.meta if k not in ('time_lag', 'variable_name')]
+                for n in g.get_nodes())
+            if es and bare and all(t == '->' for _, _, t in es):
+                names = list(reversed(g.get_node_names()))
+                idx = {x: i for i, x in enumerate(names)}
+                a = numpy.zeros((len(names), len(names)), dtype=[numpy.uint8, numpy.uint16, numpy.uint64][h // 15 % 3])
+                for s_, d_, _ in es:
+                    a[idx[s_], idx[d_]] = 1
+                h2 = type(g).from_adjacency_matrix(a, names)
+                route = 'matrix-unsigned'
+            else:
+                h2 = g.copy()
+        elif h % 5 == 0 and h // 5 % 3 == 2:
+            # through a networkx graph whose labels are ints (when every name is a canonical decimal integer)
+            import networkx
+            names = g.get_node_names()
+            es = shape(g)[1]
+            bare = not g.meta and all(not e.meta for e in g.get_edges()) and all(
+                n.variable_type.value == 'unspecified' and not [k for k in n.meta if k not in ('time_lag', 'variable_name')]
+                for n in g.get_nodes())
+            if names and bare and all(x.isdigit() and x == str(int(x)) for x in names) \
+                    and es and all(t == '->' for _, _, t in es):
+                x = networkx.DiGraph()
+                x.add_nodes_from(int(n_) for n_ in names)
+                x.add_edges_from((int(s_), int(d_)) for s_, d_, _ in es)
+                h2 = type(g).from_networkx(x)
+                route = 'networkx-int-labels'
+            else:
+                h2 = type(g).from_dict(json.loads(json.dumps(g.to_dict())))
+        else:
+            h2 = type(g).from_dict(json.loads(json.dumps(g.to_dict()))) if h % 5 == 0 else g.copy()
         if shape(h2) != shape(g):
             return g, ['route:changed-the-graph']
     except Exception:  # noqa: BLE001 - a graph the route cannot carry (entered with validate=False, odd metadata)
         return g, []
     stress(h2, ('after-reroute', key))
-    return h2, ['route:json' if h % 5 == 0 else 'route:copy']
+    return h2, ['route:' + route]
 
 
 def _warm(g):
@@ -235,6 +272,19 @@ def _warm(g):
                 f()
             except Exception:  # noqa: BLE001
                 pass
+    # separation queries (a library may memoise or store their answers)
+    try:
+        ns = g.get_node_names()[:4]
+        for i, a in enumerate(ns):
+            for b in ns[i + 1:]:
+                for f in (lambda: g.get_d_separation_set(a, b), lambda: g.is_minimally_d_separated(a, b),
+                          lambda: g.is_d_separated(a, b), lambda: g.is_d_separated([a], [b], [x for x in ns if x not in (a, b)][:1])):
+                    try:
+                        f()
+                    except Exception:  # noqa: BLE001
+                        pass
+    except Exception:  # noqa: BLE001
+        pass
 
 
 def stress(g, key):
@@ -334,6 +384,92 @@ def stress(g, key):
                 done.append('node-came-and-went')
         except Exception:  # noqa: BLE001
             done.append('ghost-raised')
+    is_ts = hasattr(g, 'get_minimal_graph')
+    # 5. a hub with two parents, two children and two non-directed edges into the graph comes and goes (ghost names
+    #    include a lone quote and a comma-blank: legitimate identifiers that occur inside the TEXT of every edge pair)
+    if h // 67 % 2 and names:
+        hub, ghosts = 'zq hub', ['zq p1', "'", 'zq c1', ', ']
+        try:
+            if not any(g.node_exists(x) for x in [hub] + ghosts):
+                g.add_edge(ghosts[0], hub)
+                g.add_edge(ghosts[1], hub)
+                g.add_edge(hub, ghosts[2])
+                g.add_edge(hub, ghosts[3])
+                g.add_edge(hub, names[h // 71 % len(names)], edge_type=EdgeType.UNDIRECTED_EDGE)
+                other = names[h // 73 % len(names)]
+                if other != names[h // 71 % len(names)]:
+                    g.add_edge(other, hub, edge_type=EdgeType.BIDIRECTED_EDGE)
+                _warm(g)
+                g.delete_node(hub)
+                for x in ghosts:
+                    (g.delete_node if h // 79 % 2 else g.remove_node)(x)
+                done.append('hub-came-and-went')
+        except Exception:  # noqa: BLE001
+            done.append('hub-raised')
+    # 6. a node is renamed and renamed back (same variable type; the metadata and every edge travel with it)
+    if h // 83 % 2 and names:
+        n = names[h // 89 % len(names)]
+        try:
+            import re
+            m = re.match(r'^(.*?)( (?:lag|future)\(n=\d+\))?$', n, re.S)
+            tmp = 'zq tmp' + (m.group(2) or '') if is_ts and m else 'zq tmp'
+            if not g.node_exists(tmp):
+                vt = g.get_node(n).variable_type
+                g.replace_node(n, tmp, variable_type=vt)
+                _warm(g)
+                g.replace_node(tmp, n, variable_type=vt)
+                done.append('renamed-and-back')
+        except Exception:  # noqa: BLE001
+            done.append('rename-raised')
+    # 6b. (time-series) a refused rename: a node with a parent and a child is moved far into the future; its inbound edges
+    #     can be copied, the first outbound one points backwards in time -- the half-built new node must go again
+    if is_ts and directed and h // 131 % 2:
+        import re
+        mids = [x for x in names if any(b == x for _, b in directed) and any(a == x for a, _ in directed)]
+        if mids:
+            n = mids[h // 137 % len(mids)]
+            m = re.match(r'^(.*?)( (?:lag|future)\(n=\d+\))?$', n, re.S)
+            new = (m.group(1) if m else n) + ' future(n=9)'
+            try:
+                if not g.node_exists(new):
+                    g.replace_node(n, new, variable_type=g.get_node(n).variable_type)
+                    done.append('rename-against-time-accepted!')
+            except Exception:  # noqa: BLE001
+                done.append('refused-rename-against-time')
+    # 7. a refused replace_edge that asked for ANOTHER edge type (the new pair is the reverse of an existing edge): the
+    #    original edge must come back as it was
+    if len(directed) >= 2 and h // 97 % 2:
+        (a, b), (c, d) = directed[h // 101 % len(directed)], directed[h // 103 % len(directed)]
+        if (a, b) != (c, d) and g.edge_exists(a, b) and g.edge_exists(c, d):
+            try:
+                g.replace_edge(a, b, d, c, edge_type=EdgeType.BIDIRECTED_EDGE)
+                done.append('replace-accepted!')
+            except Exception:  # noqa: BLE001
+                done.append('refused-replace')
+    # 7b. (time-series) a refused replace_edge whose new pair points backwards in time (refused by the edge class, not by
+    #     the graph's own checks)
+    if is_ts and directed and h // 109 % 2:
+        import re
+
+        def lag_of(x):
+            m = re.match(r'^.*? (lag|future)\(n=(\d+)\)$', x, re.S)
+            return 0 if not m else (-int(m.group(2)) if m.group(1) == 'lag' else int(m.group(2)))
+        a, b = directed[h // 113 % len(directed)]
+        pairs = [(x, y) for x in names for y in names if lag_of(x) > lag_of(y) and (x, y) not in joined]
+        if pairs and g.edge_exists(a, b):
+            x, y = pairs[h // 127 % len(pairs)]
+            try:
+                g.replace_edge(a, b, x, y)
+                done.append('replace-against-time-accepted!')
+            except Exception:  # noqa: BLE001
+                done.append('refused-replace-against-time')
+    # 8. (time-series) a refused edge against time between two NEW nodes, entered with validate=False
+    if is_ts and h // 107 % 2:
+        try:
+            g.add_edge('zq late future(n=9)', 'zq early lag(n=9)', validate=False)
+            done.append('against-time-accepted!')
+        except Exception:  # noqa: BLE001
+            done.append('refused-against-time')
     if h // 13 % 2:
         done += export_abuse(g)
     return done
